@@ -3,6 +3,7 @@
 #include "vcore.hpp"
 #include <rapidcheck.h>
 #include <ctime>
+#include <sys/syscall.h>
 
 extern "C" void __sanitizer_set_death_callback(void (*)(void)) __attribute__((weak));
 
@@ -51,15 +52,52 @@ static void write_case_file(const std::string& path, const PropDef& p, const std
   f << "\n";
 }
 
+// Called from sanitizer death callbacks and signal handlers: no allocation, no stdio, raw system calls only
+// (inside a ThreadSanitizer report the runtime holds internal locks; intercepted libc calls can deadlock there).
+static char g_crash_path_c[1024];
+static char g_crash_head_c[1024];
+static size_t raw_append(char* buf, size_t pos, size_t cap, const char* s) { while (*s && pos + 1 < cap) buf[pos++] = *s++; return pos; }
+static size_t raw_append_u(char* buf, size_t pos, size_t cap, unsigned long v) {
+  char tmp[24]; int n = 0;
+  do { tmp[n++] = (char)('0' + v % 10); v /= 10; } while (v && n < 23);
+  while (n > 0 && pos + 1 < cap) buf[pos++] = tmp[--n];
+  return pos;
+}
+static void raw_write(int fd, const char* b, size_t n) { while (n > 0) { long r = syscall(SYS_write, fd, b, n); if (r <= 0) break; b += r; n -= (size_t)r; } }
 static void crash_dump() {
-  static bool done = false;
-  if (done) return;
-  done = true;
-  if (g_cur_prop && g_cur_tape && !g_crash_path.empty()) {
-    write_case_file(g_crash_path, *g_cur_prop, *g_cur_tape, g_cur_tape->size(), "crash",
-                    "process died (sanitizer report / assertion / signal) while running this case", "");
-    std::fprintf(stderr, "\nVERIF-CRASH case written to %s\n", g_crash_path.c_str());
+  static volatile int done = 0;
+  if (__sync_lock_test_and_set(&done, 1)) return;
+  if (!g_cur_tape || g_crash_path_c[0] == 0) return;
+  int fd = (int)syscall(SYS_open, g_crash_path_c, O_WRONLY | O_CREAT | O_TRUNC, 0644);
+  if (fd < 0) return;
+  size_t hl = 0; while (g_crash_head_c[hl]) ++hl;
+  raw_write(fd, g_crash_head_c, hl);
+  static char buf[1 << 16];
+  size_t pos = 0;
+  pos = raw_append(buf, pos, sizeof buf, "tape");
+  const std::vector<uint32_t>& tp = *g_cur_tape;
+  size_t n = tp.size();
+  while (n > 0 && tp[n - 1] == 0) --n;
+  for (size_t i = 0; i < n; ++i) {
+    if (pos + 16 > sizeof buf) { raw_write(fd, buf, pos); pos = 0; }
+    buf[pos++] = ' ';
+    pos = raw_append_u(buf, pos, sizeof buf, tp[i]);
   }
+  buf[pos++] = '\n';
+  raw_write(fd, buf, pos);
+  syscall(SYS_close, fd);
+  static char msg[1200];
+  size_t m = 0;
+  m = raw_append(msg, m, sizeof msg, "\nVERIF-CRASH case written to ");
+  m = raw_append(msg, m, sizeof msg, g_crash_path_c);
+  m = raw_append(msg, m, sizeof msg, "\n");
+  raw_write(2, msg, m);
+}
+static void set_crash_target(const PropDef& p, const std::string& path) {
+  g_crash_path = path;
+  std::snprintf(g_crash_path_c, sizeof g_crash_path_c, "%s", path.c_str());
+  std::snprintf(g_crash_head_c, sizeof g_crash_head_c, "# verif case v1\nprop %s\ntarget %s\nvariant %s\n# class crash\n# message process died (sanitizer report / assertion / signal) while running this case\n",
+                p.name.c_str(), g_target.c_str(), p.variant.c_str());
 }
 static void on_signal(int sig) {
   crash_dump();
@@ -211,7 +249,7 @@ static int run_rc(const PropDef& p, const std::string& out, const std::string& r
     return rc::shrinkable::just(v);
   });
 
-  g_crash_path = replay_dir + "/" + p.name + "-" + g_target + "-crash-" + std::to_string((long)getpid()) + ".case";
+  set_crash_target(p, replay_dir + "/" + p.name + "-" + g_target + "-crash-" + std::to_string((long)getpid()) + ".case");
 
   // shrinking budget: once a failure has been seen, at most this many further executions / seconds are spent on shrinking;
   // afterwards every candidate is reported as passing, which ends rapidcheck's shrink loop at the smallest failure found so far
@@ -299,7 +337,7 @@ static int run_replay(const std::string& file, const std::string& prop_override,
   ctx.want_desc = true;
   ctx.verbose = true;
   size_t used = 0;
-  g_crash_path = file + ".crash";
+  set_crash_target(*p, file + ".crash");
   run_one(*p, tape, ctx, &used);
   std::printf("case: {%s}\n", ctx.desc.str().c_str());
   for (auto& k : ctx.known_hits) std::printf("known-finding region hit: %s (%s)\n", k.c_str(), ctx.known_detail.c_str());
